@@ -51,6 +51,9 @@ type Case struct {
 	Age  int   `json:"age,omitempty"` // how many seconds in the past the 6-second band lies (0 = 1000): also older than the configured retention (7200 s) and than the default one (30 days)
 	Msgs []Msg `json:"msgs"`
 	Qs   []Q   `json:"qs"`
+	// Reopen (disk provider): the store is closed and opened again on its directory between the stores and the queries -
+	// history is asked for in another life of the broker than the one that stored it
+	Reopen bool `json:"reopen,omitempty"`
 }
 
 var lits = []string{"a", "b", "c"}
@@ -58,6 +61,7 @@ var lits = []string{"a", "b", "c"}
 func genCase(disk bool) func(t *rapid.T) Case {
 	return func(t *rapid.T) Case {
 		c := Case{Disk: disk, Age: rapid.SampledFrom([]int{1000, 1000, 1000, 10000, 3000000}).Draw(t, "age")}
+		c.Reopen = disk && rapid.IntRange(0, 3).Draw(t, "reopen") == 0
 		for i, n := 0, rapid.IntRange(0, 40).Draw(t, "nmsgs"); i < n; i++ {
 			m := Msg{C: rapid.SampledFrom([]int{0, 0, 0, 1, 1, 2}).Draw(t, "c"), T: rapid.IntRange(0, 5).Draw(t, "t"),
 				TTL:  rapid.SampledFrom([]uint32{1, 500, 3600, 3600, 100000, 100000, 4000000, 4000000, 4294967295}).Draw(t, "ttl"),
@@ -113,6 +117,7 @@ func ssid(contract uint32, levels []string) message.Ssid {
 var (
 	mem     *storage.InMemory
 	disk    *storage.SSD
+	diskDir string
 	caseNo  uint32
 	retainS = uint32(7200)
 )
@@ -128,7 +133,7 @@ func store(d bool) (storage.Storage, error) {
 			if err := s.Configure(map[string]interface{}{"dir": dir, "retain": float64(retainS)}); err != nil {
 				return nil, err
 			}
-			disk = s
+			disk, diskDir = s, dir
 		}
 		return disk, nil
 	}
@@ -178,6 +183,18 @@ func run(c Case) vkit.Result {
 		recs = append(recs, r)
 	}
 	labels := map[string]bool{}
+	if c.Disk && c.Reopen {
+		if err := disk.Close(); err != nil {
+			return vkit.Failf("closing the store: %v", err)
+		}
+		s2 := storage.NewSSD(nil)
+		if err := s2.Configure(map[string]interface{}{"dir": diskDir, "retain": float64(retainS)}); err != nil {
+			disk = nil
+			return vkit.Failf("the store does not open again on its directory: %v", err)
+		}
+		disk, s = s2, s2
+		labels["queried-in-another-life"] = true
+	}
 	nontrivial := false
 	for qi, q := range c.Qs {
 		contract := contracts[q.C]
